@@ -259,6 +259,9 @@ def _reads(M):
         g3_count=lambda: G[3].members.count() if G.get(id=3) else 'gone',
         g2_members=lambda: names(G[2].members),
         p2_in_g1=lambda: P[2] in G[1].members,
+        t2_in_p1_tags=lambda: T[2] in P[1].tags,
+        p1_in_t2_persons=lambda: P[1] in T[2].persons,
+        t1_in_p1_tags=lambda: T[1] in P[1].tags,
         members_iter=lambda: names(G[1].members),
         select_filter=lambda: names(P.select(lambda p: p.age > 50)),
         select_kw=lambda: names(P.select(age=99)),
@@ -354,5 +357,5 @@ CONTRACTS = [
                                                 'pony.orm.core:SetInstance.is_empty', 'pony.orm.core:SetInstance.__contains__', 'pony.orm.core:SetInstance.__len__',
                                                 'pony.orm.core:Query._actual_fetch', 'pony.orm.core:Query._aggregate', 'pony.orm.core:Entity.to_dict'],
              _dd_configs, _dd_case, [('same_answer_as_a_new_session_after_commit', _dd_spec)], level='bounded',
-             bound='3 entities (1-n and n-n), 15 single modifications + pairs, 6 warm-up states, 29 reads'),
+             bound='3 entities (1-n and n-n), 15 single modifications + pairs, 6 warm-up states, 32 reads'),
 ]
